@@ -634,6 +634,28 @@ def world_rule2(pid):
     return f
 
 
+def c19_collect(pid):
+    """fee.collect feeI feeG feeP vault  =>  ok feeI' feeG' feeP' toInsurance toGroup toProgram: each fee bucket must fall by exactly
+    the whole tokens moved to its destination, and nothing may be moved that was not owed or that the vault does not hold"""
+    def f(op, impl, model):
+        if not op.startswith("fee.collect"):
+            return None
+        a = [int(x) for x in op.split()[1:]]
+        i = _nums(impl)
+        if not i or len(i) != 6 or len(a) != 4:
+            return None
+        one = 1 << 48
+        names = ["insurance", "group", "program"]
+        for k in range(3):
+            if a[k] - i[k] != i[3 + k] * one:
+                return (f"{pid} collect_bank_fees reduced the {names[k]} fee bucket by {a[k] - i[k]} (x2^-48 token) while {i[3 + k]} whole tokens "
+                        f"were moved to its destination: the bucket and the money no longer agree (buckets {a[:3]} -> {i[:3]}, vault {a[3]}): {op}")
+        if sum(i[3:]) > a[3]:
+            return f"{pid} collect_bank_fees moved {sum(i[3:])} tokens out of a vault holding {a[3]}: {op}"
+        return None
+    return f
+
+
 WITNESS = {
     "C04": [c04_health, emode_dupes("C04"), venue_v4("C04"), world_rule("C04")],
     "C13": [emode_dupes("C13"), emode_leverage("C13"), accepted_invalid_curve("C13")],
@@ -646,12 +668,12 @@ WITNESS = {
     "C03": [ixf_tokens("C03"), tf_mint("C03"), venue_booking("C03"), wrapper_free_value("C03"), world_rule("C03"), world_rule2("C03")],
     "C17": [c17_limits, world_rule("C17")],
     "C06": [c06_accrual, world_rule("C06"), world_rule2("C06")],
-    "C19": [c19_emissions, tf_mint("C19")],
+    "C19": [c19_emissions, tf_mint("C19"), c19_collect("C19")],
     "C02": [c02_closebank, venue_booking("C02"), wrapper_free_value("C02"), world_rule("C02"), world_rule2("C02")],
     "C11": [c11_health, world_rule2("C11")],
     "C10": [bracket_conditions("C10"), c10_health, world_rule("C10"), world_rule2("C10")],
     "C20": [c20_venue_value, c20_fail_closed, venue_booking("C20"), venue_v4("C20")],
-    "C01": [ixf_tokens("C01"), tf_mint("C01"), venue_booking("C01"), wrapper_free_value("C01"), world_rule("C01"), world_rule2("C01")],
+    "C01": [c19_collect("C01"), ixf_tokens("C01"), tf_mint("C01"), venue_booking("C01"), wrapper_free_value("C01"), world_rule("C01"), world_rule2("C01")],
 
     "C08": [world_rule("C08"), world_rule2("C08")],
     "C14": [world_rule("C14"), world_rule2("C14")],}
